@@ -117,16 +117,7 @@ func uniqifyName(definitions spec.Definitions, name string) (string, bool) {
 		return name, isOAIGen
 	}
 
-	unq := true
-	for k := range definitions {
-		if strings.EqualFold(k, name) {
-			unq = false
-
-			break
-		}
-	}
-
-	if unq {
+	if !nameExists(definitions, name) {
 		return name, isOAIGen
 	}
 
@@ -134,15 +125,26 @@ func uniqifyName(definitions spec.Definitions, name string) (string, bool) {
 	isOAIGen = true
 	var idx int
 	unique := name
-	_, known := definitions[unique]
+	known := nameExists(definitions, unique)
 
 	for known {
 		idx++
 		unique = fmt.Sprintf("%s%d", name, idx)
-		_, known = definitions[unique]
+		known = nameExists(definitions, unique)
 	}
 
 	return unique, isOAIGen
+}
+
+// nameExists tells whether a definition already bears this name, irrespective of letter case.
+func nameExists(definitions spec.Definitions, name string) bool {
+	for k := range definitions {
+		if strings.EqualFold(k, name) {
+			return true
+		}
+	}
+
+	return false
 }
 
 func namesFromKey(parts sortref.SplitKey, aschema *AnalyzedSchema, operations map[string]operations.OpRef) []string {
